@@ -233,6 +233,7 @@ structure St where
   cvWaiters : List Nat := []
   cwaitL : List Nat := []      -- parked consumer tasks
   pwaitL : List Nat := []
+  cwFor : Nat → Nat × Nat := fun _ => (0, 0)   -- ghost: slot and sequence number a parked consumer task waits for
   -- ghost
   log : List Nat := []
   dlv : Nat → List Nat := fun _ => []
@@ -427,7 +428,7 @@ def checkDone (σ : St) (t : Nat) (j seq : Nat) (ph : WPh) (b : Bool) : St :=
   | .parked =>
       -- FutWait::park under the list lock
       if b then waitDone σ t       -- unlock, fut_wait returns false: loop
-      else ({ σ with cwaitL := σ.cwaitL ++ [t] }).goto t .psl
+      else ({ σ with cwaitL := σ.cwaitL ++ [t], cwFor := upd σ.cwFor t (j, seq) }).goto t .psl
   | .futw => if b then waitDone σ t else σ.goto t (.wy j seq .futw)
 
 /-- end of a receiver drop (after `remove_token`): fence SeqCst; f(): futures receivers notify the producers'
